@@ -198,8 +198,8 @@ func main() {
 		rep.Eval(1)
 		report(&c, res)
 		rep.Count("probes", int64(len(c.Probes)))
-		rep.Nontrivial("replay")
-		rep.Nontrivial("replay2")
+		_, fp := classify(&c)
+		rep.Nontrivial(fp)
 		cleanup()
 		rep.Finish()
 	}
@@ -376,8 +376,14 @@ func main() {
 	rep.Count("struct_inputs_merged_away", nMergedAway.Load())
 	rep.Count("plugin_loads_with_several_lists", nPluginLists.Load())
 	rep.Count("order_comparisons", nOrderCmp.Load())
+	rep.Count("cases_with_order_dependent_answers", nOrderDependent.Load())
 	rep.Count("reader_noise_lines_per_order", nReaderNoise.Load())
 	rep.Count("cases_with_rejected_input", loadErrCount)
+	rep.Extra("out_of_scope_observations_not_judged", map[string]int64{
+		"invalid_addr_queries_answered_true":             nInvalidTrue.Load(),
+		"zoned_form_of_a_covered_address_asked":          nZonedAsked.Load(),
+		"zoned_form_of_a_covered_address_answered_false": nZonedFalse.Load(),
+	})
 	l4, l6 := 0, 0
 	var miss []string
 	for i := range lenSeen4 {
